@@ -151,6 +151,7 @@ pub fn exec(m: Mode, spec: &Spec, r: &mut RunResult) {
         let mut latest: Vec<std::collections::BTreeMap<usize, (Sol, bool)>> = vec![Default::default(); slots.len()];
         let mut warm = vec![false; slots.len()];
         let mut poisoned = vec![false; slots.len()];
+        let mut interrupted_slot = vec![false; slots.len()];
         let tainted: Vec<String> = frag.as_ref().map(|(p, _)| wgen::co_tainted(p)).unwrap_or_default();
         for (oi, op) in spec.ops.iter().enumerate() {
             if poisoned[op.slot] {
@@ -221,8 +222,14 @@ pub fn exec(m: Mode, spec: &Spec, r: &mut RunResult) {
                 }
                 Mode::C04 => {
                     if st.sc_false > 0 {
-                        // an interrupted answer is a safe approximation at best (C11's subject), not "the solver's answer"
+                        // an interrupted answer is a safe approximation at best (C11's subject), not "the solver's answer";
+                        // what an interruption leaves behind in the solver is C11's subject as well
                         r.bump("c04.interrupted_answers_not_compared", 1);
+                        interrupted_slot[op.slot] = true;
+                        continue;
+                    }
+                    if interrupted_slot[op.slot] {
+                        r.bump("c04.answers_after_an_interruption_not_compared", 1);
                         continue;
                     }
                     if let Out::Ans(s) = &out {
@@ -249,6 +256,9 @@ pub fn exec(m: Mode, spec: &Spec, r: &mut RunResult) {
                                 sig.push_str(ref_tag(&frag, op.goal));
                                 if hyp_mentions_unknown(&spec.world.goals[op.goal]) {
                                     sig.push_str("+unknown-in-hyp");
+                                }
+                                if crate::ssim::nonlinear_impl_header(&spec.world.items.join("\n")) {
+                                    sig.push_str("+nonlinear");
                                 }
                                 r.violate(
                                     "solvers-contradict",
@@ -288,6 +298,9 @@ pub fn exec(m: Mode, spec: &Spec, r: &mut RunResult) {
                         sig.push_str(ref_tag(&frag, gi));
                         if hyp_mentions_unknown(&spec.world.goals[gi]) {
                             sig.push_str("+unknown-in-hyp");
+                        }
+                        if crate::ssim::nonlinear_impl_header(&spec.world.items.join("\n")) {
+                            sig.push_str("+nonlinear");
                         }
                         r.violate("solvers-contradict", format!("goal `{}` (fresh solvers): SLG answers `{}`, recursive solver answers `{}`: {}", spec.world.goals[gi], fmt_sol(a), fmt_sol(b), why), Some(&sig));
                     }
